@@ -37,7 +37,7 @@ PARTIAL = {
                                 "that passes the argument (multidb_own_override) and for runs in which no call passes it (multidb_default)",
 }
 TRUSTED = [
-    "which dialects have transactional DDL when nothing is overridden (DEFAULT_TDDL: postgresql and mssql yes; sqlite, mysql, oracle no) is specification data of the harness, "
+    "which dialects have transactional DDL when nothing is overridden (DEFAULT_TDDL: postgresql and mssql yes; sqlite, mysql, mariadb, oracle no) is specification data of the harness, "
     "not read from the implementation; an explicit transactional_ddl= counts for the configure() call that passes it",
     "tokeniser of the offline output buffer (harness/props/c18.py:tokenise): BEGIN/COMMIT spellings and batch separators per dialect",
     "nver (number of version-table statements per step) and createVT/dropVT are read from the implementation run and passed to the model as parameters; the theorems hold for every value of them",
@@ -49,10 +49,10 @@ RULE = (
 )
 ASSUMPTIONS = ["env.py has the documented shape: with context.begin_transaction(): context.run_migrations()"]
 
-DIALECTS = ["sqlite", "postgresql", "mysql", "mssql", "oracle"]
+DIALECTS = ["sqlite", "postgresql", "mysql", "mariadb", "mssql", "oracle"]
 # "a dialect with transactional DDL": what each dialect's impl declares when nothing is overridden (spec data, see TRUSTED);
 # an explicit transactional_ddl= of the *same* configure() call overrides it
-DEFAULT_TDDL = {"sqlite": False, "postgresql": True, "mysql": False, "mssql": True, "oracle": False}
+DEFAULT_TDDL = {"sqlite": False, "postgresql": True, "mysql": False, "mariadb": False, "mssql": True, "oracle": False}
 
 
 def expected_tddl(dialect, override):
